@@ -20,7 +20,7 @@
    that tools/props/c17.py re-extracts from the current source into PyCGen.IdsGen. *)
 From Coq Require Import NArith ZArith String List Bool.
 From Coq Require Import Init.Byte.
-From PyC Require Import Base Cbor Ids IdsProofs.
+From PyC Require Import Base Cbor Ids IdsProofs IdsSeq IdsSeqProofs.
 From PyCGen Require Import IdsGen.
 Import ListNotations.
 Open Scope N_scope.
@@ -28,12 +28,15 @@ Open Scope N_scope.
 (* The constants in the source are the specified ones: digest sizes (hash.py *_SIZE as used at each
    hashing site), language prefix bytes 00/01/02/03 (and 01 for plain bytes), the 32-byte cut of an
    extended key, native-script type tags, CIP-14 hrp / size / operand order, script address header
-   nibbles and network ids; AuxiliaryData objects are always true in a boolean context. *)
+   nibbles and network ids; AuxiliaryData objects are always true in a boolean context; TransactionBody.id and
+   Transaction.id are plain properties (recomputed at every read, c_memo_* = false); the keyed fields of
+   TransactionBody and AlonzoMetadata are declared (hence emitted) in ascending key order. *)
 Theorem C17_source_constants :
   gen_cfg = spec_cfg
   /\ gen_class_sizes = [("VerificationKeyHash", 28%nat); ("ScriptHash", 28%nat); ("TransactionId", 32%nat);
-                        ("DatumHash", 32%nat); ("AuxiliaryDataHash", 32%nat)]%string.
-Proof. split; reflexivity. Qed.
+                        ("DatumHash", 32%nat); ("AuxiliaryDataHash", 32%nat)]%string
+  /\ ascending gen_body_keys = true /\ ascending gen_alonzo_keys = true.
+Proof. repeat split; reflexivity. Qed.
 Print Assumptions C17_source_constants.
 
 (* For every identifier-carrying object the code hashes the specified message with the specified
@@ -140,3 +143,81 @@ Theorem C17_walker_sound : forall body ws valid aux : cbor, wf body -> wf ws -> 
   = Some [(body, enc body); (ws, enc ws); (valid, enc valid); (aux, enc aux)].
 Proof. exact tx_body_slice. Qed.
 Print Assumptions C17_walker_sound.
+
+(* ------------------------------------------------------------------------------------------------------------ *)
+(* STATE.  The objects are mutable; the property holds at every moment of their life (model: IdsSeq.v).         *)
+(*   okind  = QBody (accessors 0 body.hash(), 1 body.id, 2 tx.id) | QAux (0 aux.hash())                         *)
+(*            | QDatum (0 datum_hash(d), 1 d.hash()) | QNative (0 s.hash(), 1 script_hash(s))                   *)
+(*   op     = OpRead accessor | OpEdit path (ESet k v | EDel k | EAppend v | EPut v) | OpReenc x' | OpCopy x'   *)
+(*            | OpRewrap | OpNeutral                                                                            *)
+(*   run c H k st ops : the state machine (item + what memoised accessors remember); read c H k lvl st : the    *)
+(*   identifier answered in state st;  item_after x ops : the item the edits alone produce (no accessor, no     *)
+(*   memo, no constant of the source);  q_spec_id H k y : the SPECIFIED identifier of an object of kind k that  *)
+(*   serializes as y  (= tx_id / aux_hash / datum_hash / native_script_hash, C17_sequence_spec_ids).            *)
+(* ------------------------------------------------------------------------------------------------------------ *)
+
+(* For every object kind, every initial object x and EVERY sequence of operations (earlier reads through any
+   accessor, in-place edits, deep copies, re-encodings, re-wraps in any order and number): an identifier read
+   afterwards through any accessor is the specified digest of what the object serializes to NOW. *)
+Theorem C17_sequence_ids : forall (H : nat -> bytes -> bytes) (k : okind) (x : cbor) (ops : list op) (st : ostate),
+  run gen_cfg H k (init x) ops = Some st ->
+  exists y, item_after x ops = Some y /\ s_item st = y
+            /\ forall lvl, fst (read gen_cfg H k lvl st) = q_spec_id H k y.
+Proof. exact (seq_ids gen_cfg (proj1 C17_source_constants)). Qed.
+Print Assumptions C17_sequence_ids.
+
+Theorem C17_sequence_spec_ids : forall (H : nat -> bytes -> bytes) (x : cbor) (s : nscript),
+  q_spec_id H QBody x = tx_id H (enc x) /\ q_spec_id H QAux x = aux_hash H x /\ q_spec_id H QDatum x = datum_hash H x
+  /\ q_spec_id H QNative (native_cbor s) = native_script_hash H s.
+Proof. intros H x s. repeat split. Qed.
+Print Assumptions C17_sequence_spec_ids.
+
+(* `gen_cfg = spec_cfg` is needed for it: were TransactionBody.id a cached_property, then after
+   read - extend the ttl - read  the id (also through Transaction.id) names the OLD body, while body.hash() is right;
+   a deep copy carries the stale value along, a re-encoded object is right again. *)
+Theorem C17_sequence_memo_body_id_refuted :
+  let c := cfg_with_memo spec_cfg true false in
+  let H := fun (_ : nat) (m : bytes) => m in
+  let x := CM [(CU 0, CA []); (CU 1, CA []); (CU 2, CU 170000)] in
+  let y := CM [(CU 0, CA []); (CU 1, CA []); (CU 2, CU 180000)] in
+  (exists st, run c H QBody (init x) [OpRead 1; OpEdit [] (ESet 3 (CU 4000))] = Some st
+              /\ fst (read c H QBody 2 st) <> q_spec_id H QBody (s_item st)
+              /\ fst (read c H QBody 0 st) = q_spec_id H QBody (s_item st))
+  /\ (exists st, run c H QBody (init x) [OpRead 1; OpEdit [] (ESet 2 (CU 180000)); OpCopy y; OpRewrap] = Some st
+                 /\ fst (read c H QBody 1 st) <> q_spec_id H QBody (s_item st))
+  /\ (exists st, run c H QBody (init x) [OpRead 1; OpEdit [] (ESet 2 (CU 180000)); OpReenc y] = Some st
+                 /\ fst (read c H QBody 1 st) = q_spec_id H QBody (s_item st)).
+Proof. split; [exact seq_memo_body_id_stale|exact seq_memo_copy_stale_reenc_fresh]. Qed.
+Print Assumptions C17_sequence_memo_body_id_refuted.
+
+(* the same for Transaction.id; a new Transaction around the same body is right again *)
+Theorem C17_sequence_memo_tx_id_refuted :
+  let c := cfg_with_memo spec_cfg false true in
+  let H := fun (_ : nat) (m : bytes) => m in
+  let x := CM [(CU 0, CA []); (CU 1, CA []); (CU 2, CU 170000)] in
+  (exists st, run c H QBody (init x) [OpRead 2; OpEdit [PKey 1] (EAppend (CA [CB []; CU 1]))] = Some st
+              /\ fst (read c H QBody 2 st) <> q_spec_id H QBody (s_item st)
+              /\ fst (read c H QBody 1 st) = q_spec_id H QBody (s_item st))
+  /\ (exists st, run c H QBody (init x) [OpRead 2; OpEdit [PKey 1] (EAppend (CA [CB []; CU 1])); OpRewrap] = Some st
+                 /\ fst (read c H QBody 2 st) = q_spec_id H QBody (s_item st)).
+Proof. exact seq_memo_tx_id_stale. Qed.
+Print Assumptions C17_sequence_memo_tx_id_refuted.
+
+(* The identifier follows the object: under collision-freeness, an in-place edit that changes the (well-formed)
+   item makes every later read differ from every earlier one. *)
+Theorem C17_sequence_reread_differs : forall H : nat -> bytes -> bytes, H_inj H 32 -> H_inj H 28 ->
+  forall k x ops st p e st' l l', run gen_cfg H k (init x) ops = Some st -> exec gen_cfg H k st (OpEdit p e) = Some st' ->
+  wf (s_item st) -> wf (s_item st') -> s_item st <> s_item st' ->
+  fst (read gen_cfg H k l st) <> fst (read gen_cfg H k l' st').
+Proof. exact (seq_reread_differs gen_cfg (proj1 C17_source_constants)). Qed.
+Print Assumptions C17_sequence_reread_differs.
+
+(* what setting / deleting a keyed field does to the serialized map *)
+Theorem C17_field_edits : forall (k k' : N) (v : cbor) (kvs : list (cbor * cbor)),
+  map_get k (map_put k v kvs) = Some v /\ map_get k (map_del k kvs) = None
+  /\ (k <> k' -> map_get k' (map_put k v kvs) = map_get k' kvs /\ map_get k' (map_del k kvs) = map_get k' kvs).
+Proof.
+  intros k k' v kvs. split; [apply map_get_put_same|]. split; [apply map_get_del_same|].
+  intros N. split; [now apply map_get_put_other|now apply map_get_del_other].
+Qed.
+Print Assumptions C17_field_edits.
